@@ -55,8 +55,8 @@ import (
 )
 
 const (
-	maxC     = 40
-	sideBase = 100
+	maxC  = 40  // single-crash format
+	maxC2 = 200 // multi-session format
 )
 
 var chainCfg = params.AllEthashProtocolChanges
@@ -106,7 +106,7 @@ func ensureBlocks(C, J, S int) {
 			if len(l) > 0 {
 				p = l[len(l)-1]
 			}
-			l = append(l, extend(p, sideBase+J*64+len(l)+1))
+			l = append(l, extend(p, 0x100000+J*64+len(l)+1))
 		}
 		sideBlk[J] = l
 	}
@@ -129,14 +129,17 @@ type caseSpec struct {
 	cutBlock       int
 	dur            []int
 	snaproot       int // -1 none
+	sb             int // id base of the side chain: 100 (single-crash format) or 1000 (multi-session format)
+	sessions       []sessSpec
+	v2             bool
 }
 
 func (cs *caseSpec) block(id int) *types.Block {
 	switch {
 	case id >= 0 && id <= cs.C:
 		return canonBlk[id]
-	case id > sideBase && id <= sideBase+cs.S:
-		return sideBlk[cs.J][id-sideBase-1]
+	case id > cs.sb && id <= cs.sb+cs.S:
+		return sideBlk[cs.J][id-cs.sb-1]
 	}
 	return nil
 }
@@ -147,7 +150,7 @@ func (cs *caseSpec) ids() []int {
 		out = append(out, i)
 	}
 	for k := 1; k <= cs.S; k++ {
-		out = append(out, sideBase+k)
+		out = append(out, cs.sb+k)
 	}
 	return out
 }
@@ -161,6 +164,9 @@ func (cs *caseSpec) maxn() int {
 
 func parseCase(c Sx) *caseSpec {
 	top := AsList(c)
+	if len(top) == 3 {
+		return parseCaseV2(top)
+	}
 	if len(top) != 5 {
 		bad("top")
 	}
@@ -169,7 +175,7 @@ func parseCase(c Sx) *caseSpec {
 		bad("arity")
 	}
 	cs := &caseSpec{scheme: AsInt(cfg[0]), archive: AsInt(cfg[1]) == 1, snaps: AsInt(cfg[2]) == 1,
-		C: AsInt(tr[0]), J: AsInt(tr[1]), S: AsInt(tr[2]), cutOp: AsInt(cut[0]), cutKind: AsInt(cut[1]), cutBlock: AsInt(cut[2]), snaproot: -1}
+		C: AsInt(tr[0]), J: AsInt(tr[1]), S: AsInt(tr[2]), cutOp: AsInt(cut[0]), cutKind: AsInt(cut[1]), cutBlock: AsInt(cut[2]), snaproot: -1, sb: 100}
 	if cs.scheme < 0 || cs.scheme > 1 || AsInt(cfg[1]) < 0 || AsInt(cfg[1]) > 1 || AsInt(cfg[2]) < 0 || AsInt(cfg[2]) > 1 {
 		bad("cfg")
 	}
@@ -182,7 +188,22 @@ func parseCase(c Sx) *caseSpec {
 	if cs.cutKind < 0 || cs.cutKind > 3 || cs.cutOp < 0 || cs.cutBlock < 0 {
 		bad("cut")
 	}
-	for _, o := range AsList(top[2]) {
+	cs.ops = parseOps(top[2])
+	for _, x := range AsList(data[0]) {
+		cs.dur = append(cs.dur, AsInt(x))
+	}
+	if sr := AsList(data[1]); len(sr) == 1 {
+		cs.snaproot = AsInt(sr[0])
+	} else if len(sr) != 0 {
+		bad("snaproot")
+	}
+	ensureBlocks(cs.C, cs.J, cs.S)
+	return cs
+}
+
+func parseOps(x Sx) []opSpec {
+	var ops []opSpec
+	for _, o := range AsList(x) {
 		f := AsList(o)
 		if len(f) != 2 {
 			bad("op arity")
@@ -205,26 +226,17 @@ func parseCase(c Sx) *caseSpec {
 		default:
 			bad("op kind")
 		}
-		cs.ops = append(cs.ops, op)
+		ops = append(ops, op)
 	}
-	if len(cs.ops) > 64 {
+	if len(ops) > 64 {
 		bad("too many ops")
 	}
-	for _, x := range AsList(data[0]) {
-		cs.dur = append(cs.dur, AsInt(x))
-	}
-	if sr := AsList(data[1]); len(sr) == 1 {
-		cs.snaproot = AsInt(sr[0])
-	} else if len(sr) != 0 {
-		bad("snaproot")
-	}
-	ensureBlocks(cs.C, cs.J, cs.S)
-	return cs
+	return ops
 }
 
-func (cs *caseSpec) sx(dur []int, snaproot int) Sx {
+func opsSx(list []opSpec) Sx {
 	ops := SL{}
-	for _, o := range cs.ops {
+	for _, o := range list {
 		if o.kind == 0 {
 			l := SL{}
 			for _, x := range o.ids {
@@ -235,10 +247,20 @@ func (cs *caseSpec) sx(dur []int, snaproot int) Sx {
 			ops = append(ops, L(I(int64(o.kind)), I(int64(o.arg))))
 		}
 	}
+	return ops
+}
+
+func intsSx(l []int) Sx {
 	d := SL{}
-	for _, x := range dur {
+	for _, x := range l {
 		d = append(d, I(int64(x)))
 	}
+	return d
+}
+
+func (cs *caseSpec) sx(dur []int, snaproot int) Sx {
+	ops := opsSx(cs.ops)
+	d := intsSx(dur)
 	return L(L(I(int64(cs.scheme)), Bool(cs.archive), Bool(cs.snaps)), L(I(int64(cs.C)), I(int64(cs.J)), I(int64(cs.S))), ops,
 		L(I(int64(cs.cutOp)), I(int64(cs.cutKind)), I(int64(cs.cutBlock))), L(d, Opt(snaproot >= 0, I(int64(snaproot)))))
 }
@@ -399,8 +421,7 @@ type freezerI interface {
 	Ancients() (uint64, error)
 }
 
-// execute runs the scenario up to the crash and returns the database image left behind.
-func (cs *caseSpec) execute() *crashed {
+func mkScratch() string {
 	dir, err := os.MkdirTemp("/dev/shm", "c39-")
 	if err != nil {
 		dir, err = os.MkdirTemp("", "c39-")
@@ -408,20 +429,61 @@ func (cs *caseSpec) execute() *crashed {
 			panic("hxlib: cannot create temp dir")
 		}
 	}
-	live := memorydb.New()
-	tap := &tapKV{KeyValueStore: live}
-	db, err := rawdb.Open(tap, rawdb.OpenOptions{Ancient: dir})
+	return dir
+}
+
+// env is one running "process": the chain over the tapped key-value store and the ancient dir.
+type env struct {
+	dir      string
+	live     ethdb.KeyValueStore
+	tap      *tapKV
+	db       ethdb.Database
+	bc       *core.BlockChain
+	preHead  common.Hash   // head block marker found in the database before NewBlockChain
+	preCanon []common.Hash // canonical hashes 0..maxn+1 found before NewBlockChain
+}
+
+// openEnv opens the database (key-value image + ancient dir) and starts the chain on it.
+// code 50: rawdb.Open failed, 51: NewBlockChain failed.
+func (cs *caseSpec) openEnv(dir string, kv ethdb.KeyValueStore) (*env, int64, error) {
+	e := &env{dir: dir, live: kv, tap: &tapKV{KeyValueStore: kv}}
+	db, err := rawdb.Open(e.tap, rawdb.OpenOptions{Ancient: dir})
 	if err != nil {
-		panic("rawdb.Open: " + err.Error())
+		return nil, 50, err
 	}
+	e.db = db
+	e.preCanon = make([]common.Hash, cs.maxn()+2)
+	for n := range e.preCanon {
+		e.preCanon[n] = rawdb.ReadCanonicalHash(db, uint64(n))
+	}
+	e.preHead = rawdb.ReadHeadBlockHash(db)
 	bc, err := core.NewBlockChain(db, genesisSpec(), ethash.NewFaker(), cs.chainConfig())
 	if err != nil {
-		panic("NewBlockChain (fresh): " + err.Error())
+		db.Close()
+		return nil, 51, err
 	}
+	e.bc = bc
+	return e, 0, nil
+}
+
+// execute runs the scenario up to the crash and returns the database image left behind.
+func (cs *caseSpec) execute() *crashed {
+	dir := mkScratch()
+	e, _, err := cs.openEnv(dir, memorydb.New())
+	if err != nil {
+		panic("fresh chain: " + err.Error())
+	}
+	return cs.runOps(e, cs.ops, cs.cutOp, cs.cutKind, cs.cutBlock)
+}
+
+// runOps runs ops[0..cutOp] on the running chain, ends the process as the cut says and
+// returns the database image left behind (and the DATA computed from it).
+func (cs *caseSpec) runOps(e *env, ops []opSpec, cutOp, cutKind, cutBlock int) *crashed {
+	dir, live, tap, db, bc := e.dir, e.live, e.tap, e.db, e.bc
 	cr := &crashed{dir: dir, snaproot: -1}
 	var image ethdb.KeyValueStore
-	for i, o := range cs.ops {
-		if i > cs.cutOp {
+	for i, o := range ops {
+		if i > cutOp {
 			break
 		}
 		var class int64
@@ -441,10 +503,10 @@ func (cs *caseSpec) execute() *crashed {
 				class = 8
 				break
 			}
-			if i == cs.cutOp && (cs.cutKind == 2 || cs.cutKind == 3) {
-				if cb := cs.block(cs.cutBlock); cb != nil && cs.cutBlock != 0 {
+			if i == cutOp && (cutKind == 2 || cutKind == 3) {
+				if cb := cs.block(cutBlock); cb != nil && cutBlock != 0 {
 					hk := headerKey(cb.NumberU64(), cb.Hash())
-					if cs.cutKind == 2 {
+					if cutKind == 2 {
 						tap.after = func(puts map[string][]byte, dels []string) {
 							if _, ok := puts[hk]; ok && image == nil {
 								if _, hd := puts["LastBlock"]; !hd {
@@ -496,7 +558,7 @@ func (cs *caseSpec) execute() *crashed {
 	if image != nil {
 		cr.cutHit = true
 	}
-	if cs.cutKind == 1 && image == nil {
+	if cutKind == 1 && image == nil {
 		bc.Stop()
 		cr.clean = true
 	} else {
@@ -545,6 +607,10 @@ func eqInts(a, b []int) bool {
 
 func run(c Sx) Result {
 	cs := parseCase(c)
+	if cs.v2 {
+		res, _ := cs.runV2()
+		return res
+	}
 	res := Result{}
 	cr := cs.execute()
 	defer os.RemoveAll(cr.dir)
@@ -711,7 +777,7 @@ func run(c Sx) Result {
 	if !ok {
 		a = 0
 	}
-	if a > sideBase {
+	if a > cs.sb {
 		a = cs.J
 	}
 	var rest types.Blocks
@@ -781,7 +847,7 @@ func run(c Sx) Result {
 			res.Tags = append(res.Tags, "ancients-truncated")
 		}
 	}
-	if preHeadID > sideBase {
+	if preHeadID > int64(cs.sb) {
 		res.Tags = append(res.Tags, "crash-on-sidechain")
 	}
 	res.Tags = append(res.Tags, fmt.Sprintf("len%d", (cs.C+9)/10*10))
